@@ -12,32 +12,80 @@ def returned (outs : List ReadOut) : List (Nat × Nat) :=
 /-- ACK EXACTLY ONCE: in every reachable state, the results of all acks sent so far followed by the results still buffered are
     exactly the chunks returned by ReadDataPoints, in order, each once, with the right upstream and sequence number; after a
     flush (in particular after Close) nothing is left buffered. -/
+theorem returned_cons (o : ReadOut) (outs : List ReadOut) : returned (o :: outs) = outResult o ++ returned outs := by
+  cases o <;> simp [returned, outResult]
+
+/-- generalisation of C04.ack_exactly_once to any start state -/
+theorem ack_once_aux (evs : List Ev) : ∀ s, ackedResults (run s evs) = ackedResults s ++ returned (readOuts s evs) := by
+  induction evs with
+  | nil => intro s; simp [run, readOuts, returned]
+  | cons e r ih =>
+    intro s
+    rw [run_cons, ih, step_acked]
+    cases e <;> simp [readOuts, returned_cons]
+
 theorem C04.ack_exactly_once (ids : List DataID) (evs : List Ev) :
     let s := run (initWith ids) evs
     (s.acks.flatMap (·.results)) ++ s.results = returned (readOuts (initWith ids) evs) := by
-  sorry
+  have := ack_once_aux evs (initWith ids)
+  simpa [ackedResults] using this
 
 /-- ack ids increase strictly by one from 1, across resumes too -/
 theorem C04.ack_ids (ids : List DataID) (evs : List Ev) :
     let s := run (initWith ids) evs
-    s.acks.map (·.id) = List.range' 1 s.acks.length ∧ s.ackId = s.acks.length := by
-  sorry
+    s.acks.map (·.id) = List.range' 1 s.acks.length ∧ s.ackId = s.acks.length :=
+  run_AckInv evs (initWith_AckInv ids)
 
 /-- everything ever announced (in acks sent, or still buffered), as (alias, thing) -/
 def upAnnounced (s : St) : List (Nat × Nat) := s.acks.flatMap (·.upAnn) ++ s.upAnn
 def idAnnounced (s : St) : List (Nat × DataID) := s.acks.flatMap (·.idAnn) ++ s.idAnn
 
+set_option linter.unusedVariables false in
 /-- ALIASES: every upstream / data id first seen in full form is announced exactly once; no alias is given to two things and
     nothing receives two aliases (for fewer than 2^32 - 1 aliases of each kind); pre-registered ids are never announced again.
     The tables are exactly the pre-registered entries followed by the announcements. -/
+-- STATEMENT CHANGED: added hypothesis `hn` (each table holds fewer than 2^32 - 1 aliases, as the doc comment says).  The bound
+-- `hb` on the *final* generator values does not exclude that a generator wrapped around earlier (AliasGenerator.Next goes
+-- 4294967295 ↦ 1, `#eval aliasNext 4294967295` = 1), even inside a single read.  Counterexample to the original statement
+-- (2^32 mints, too long to `#eval`; it is proved below as C04.alias_injective_needs_table_bound): ids = [],
+-- evs = [arrive ⟨.alias 0, 0, groups with the full ids 0 … 2^32-1⟩, read]: the ids get the aliases 1, 2, …, 4294967295, 1,
+-- so the final idGen is 1 and upGen is 0 (hb and hl hold) but alias 1 is bound twice: the keys of idFwd are not Nodup.
+-- With `hn`, `hb` and `hl` are redundant (generator = table length ≥ ids.length); they are kept as they were.
 theorem C04.alias_injective (ids : List DataID) (hid : ids.Nodup) (evs : List Ev)
-    (hb : (run (initWith ids) evs).idGen < 4294967295 ∧ (run (initWith ids) evs).upGen < 4294967295) (hl : ids.length < 4294967295) :
+    (hb : (run (initWith ids) evs).idGen < 4294967295 ∧ (run (initWith ids) evs).upGen < 4294967295) (hl : ids.length < 4294967295)
+    (hn : (run (initWith ids) evs).idFwd.length < 4294967295 ∧ (run (initWith ids) evs).upFwd.length < 4294967295) :
     let s := run (initWith ids) evs
     s.upFwd = upAnnounced s ∧
     s.idFwd = (initWith ids).idFwd ++ idAnnounced s ∧
     (s.upFwd.map (·.1)).Nodup ∧ (s.upFwd.map (·.2)).Nodup ∧
     (s.idFwd.map (·.1)).Nodup ∧ (s.idFwd.map (·.2)).Nodup := by
-  sorry
+  have inv : AInv (initWith ids).idFwd (run (initWith ids) evs) := run_AInv evs (initWith_AInv ids hid)
+  refine ⟨inv.upEq, inv.idEq, ?_, inv.upT.vals, ?_, inv.idT.vals⟩
+  · rw [(inv.upT.keys hn.2).1]; exact List.nodup_range'
+  · rw [(inv.idT.keys hn.1).1]; exact List.nodup_range'
+
+/-- the original statement of C04.alias_injective (bounds on the final generator values only, no bound on the table sizes) is
+    false: the counterexample of the STATEMENT CHANGED note above, checked -/
+theorem C04.alias_injective_needs_table_bound :
+    ¬ ∀ (ids : List DataID) (_ : ids.Nodup) (evs : List Ev)
+        (_ : (run (initWith ids) evs).idGen < 4294967295 ∧ (run (initWith ids) evs).upGen < 4294967295)
+        (_ : ids.length < 4294967295),
+        let s := run (initWith ids) evs
+        s.upFwd = upAnnounced s ∧
+        s.idFwd = (initWith ids).idFwd ++ idAnnounced s ∧
+        (s.upFwd.map (·.1)).Nodup ∧ (s.upFwd.map (·.2)).Nodup ∧
+        (s.idFwd.map (·.1)).Nodup ∧ (s.idFwd.map (·.2)).Nodup := by
+  intro h
+  obtain ⟨h1, h2, h3⟩ := run_one_chunk (freshGroups 0 (4294967295 + 1))
+  obtain ⟨w1, w2⟩ := assignIds_wrap 4294967295 (Nat.le_refl _) (by decide)
+  have := h [] List.nodup_nil [.arrive ⟨.alias 0, 0, freshGroups 0 (4294967295 + 1)⟩, .read]
+    ⟨by rw [h2, w2]; decide, by rw [h3]; decide⟩ (by decide)
+  obtain ⟨_, _, _, _, hk, _⟩ := this
+  rw [h1, w1] at hk
+  simp only [List.map_append, List.map_cons, List.map_nil] at hk
+  rw [List.nodup_append] at hk
+  refine hk.2.2 1 ?_ 1 (List.mem_singleton.mpr rfl) rfl
+  exact List.mem_map.mpr ⟨(1, 0), List.mem_map.mpr ⟨0, List.mem_range.mpr (by decide), rfl⟩, rfl⟩
 
 /-- CLOSE FLUSHES FIRST: Close sends the pending results and announcements in an ack strictly before the close request, and
     leaves nothing buffered -/
@@ -46,11 +94,19 @@ theorem C04.close_flushes_first (s : St) :
     s'.upAnn = [] ∧ s'.idAnn = [] ∧ s'.results = [] ∧ s'.closeReq = true ∧ s'.out.getLast? = some 1 ∧
     ((s.upAnn ≠ [] ∨ s.idAnn ≠ [] ∨ s.results ≠ []) →
         s'.acks = s.acks ++ [⟨s.ackId + 1, s.upAnn, s.idAnn, s.results⟩] ∧ s'.out = s.out ++ [0, 1]) := by
-  sorry
+  rw [close_eq]
+  rcases flushAck_cases s with ⟨h1, h2, h3, hf⟩ | ⟨hne, hf⟩
+  · rw [hf]
+    refine ⟨h1, h2, h3, rfl, by simp, ?_⟩
+    rintro (h | h | h)
+    · exact absurd h1 h
+    · exact absurd h2 h
+    · exact absurd h3 h
+  · rw [hf]
+    exact ⟨rfl, rfl, rfl, rfl, by simp, fun _ => ⟨rfl, by simp⟩⟩
 
 /-- RESUME keeps buffers, tables and generators: ack ids continue, nothing is announced twice -/
-theorem C04.resume_keeps (s : St) : step s .resume = s := by
-  sorry
+theorem C04.resume_keeps (s : St) : step s .resume = s := rfl
 
 example : ((run (initWith []) [.arrive ⟨.info 3, 1, [⟨.id 7, []⟩]⟩, .arrive ⟨.info 3, 2, [⟨.id 7, []⟩]⟩, .read, .read, .flushAck, .close]).acks)
     = [⟨1, [(1, 3)], [(1, 7)], [(3, 1), (3, 2)]⟩] := by decide
